@@ -63,6 +63,13 @@ def r17_1(ctx):
     xi = [st for st in walk_no_nested(t.node) if isinstance(st, ast.Assign) and ast.unparse(st.targets[0]) == "self.xi"]
     ok = len(xi) == 1 and Norm(None).key(xi[0].value) == Norm(None).key(ast.parse("ca.vec(DM(self.time_grid(0, 1, self.N))).T", mode="eval").body)
     ctx.check(ok, "knot grid = the time grid normalised to [0,1] with N intervals", detail="knots", expected="self.xi = vec(DM(self.time_grid(0, 1, self.N))).T", found=ast.unparse(xi[0].value) if xi else None, fi=t)
+    # ... which is the actual control grid only when the interval lengths are not decision variables: with FreeGrid the normalised
+    # grid is a fixed uniform one while the control grid moves, so B-spline signals must be rejected there
+    sct = ctx.scope(t)
+    fg = [n_ for n_ in walk_no_nested(t.node) if isinstance(n_, (ast.If, ast.Assert)) and "FreeGrid" in ast.unparse(n_.test) and "bspline" in ast.unparse(n_.test)
+          and (isinstance(n_, ast.Assert) or any(isinstance(x, ast.Raise) for x in n_.body))]
+    ctx.check(bool(fg) and bool(xi) and sct.order[fg[0]] < sct.order[xi[0]] + 10 ** 6, "B-spline signals on a FreeGrid are rejected", detail="with FreeGrid the signal is built on uniform knots k/N, not on the (free) control grid: its samples are not the spline of the reported coefficients on the control-grid knots",
+              expected="if isinstance(self.time_grid, FreeGrid) and (stage.variables['bspline'] or stage.parameters['bspline']): raise", found="no such guard in SamplingMethod.transcribe", fi=t)
     g = P.own_method("SplineMethod", "add_variables")
     scg = ctx.scope(g)
     ng = Norm(scg)
@@ -493,3 +500,37 @@ def r17_10(ctx):
     ok = len(apps) == 2 and texts[0] == Norm(None).key(ast.parse("%s[i]" % xi, mode="eval").body) and texts[1] == want_inner
     ctx.check(ok, "eval_on_knots returns, with the basis, the locations knot_i and knot_i*(1-tau)+tau*knot_{i+1}", detail="sample locations reported with the basis", expected="k.append(xi[i]); k.append(k_current*(1-tau)+tau*k_next)",
               found=str(texts), fi=g)
+
+
+@rule("R17.11", min_instances=2, desc="gist sampling under SplineMethod: the coefficients of a chain member are reported at the Greville points of ITS OWN degree (head degree minus its level in the chain)")
+def r17_11(ctx):
+    P = ctx.prog
+    f = P.own_method("SplineMethod", "grid_gist")
+    sc = ctx.scope(f)
+    n = Norm(sc, alias_only=True)
+    rets = [r for r in walk_no_nested(f.node) if isinstance(r, ast.Return) and isinstance(r.value, ast.Tuple) and len(r.value.elts) == 2]
+    ctx.check(len(rets) == 2, "grid_gist has a chain branch and a signal branch", detail="structure", expected="two returns (time, coefficients)", found=str(len(rets)), fi=f)
+    for r in rets:
+        t = r.value.elts[0]
+        gname = [x for x in ast.walk(t) if isinstance(x, (ast.Name, ast.Subscript)) and not ast.unparse(x).startswith("self.t0") and not ast.unparse(x).startswith("self.T")]
+        # time = self.t0 + G*self.T
+        p = Norm(None).poly(t)
+        others = [a for a in p.atoms() if a not in ("self.t0", "self.T")]
+        ok = len(others) == 1 and p == Poly.atom("self.t0") + Poly.atom(others[0]) * Poly.atom("self.T")
+        src = None
+        if ok:
+            g = others[0]
+            if g.startswith("self.G["):
+                # indexed by the degree of the chain HEAD: wrong for lower members
+                src = "head"
+            else:
+                ds = [d_ for d_ in sc.defs.get(g, []) if d_.kind == "assign" and sc.order[d_.stmt] < sc.order[r]]
+                ds = [d_ for d_ in ds if is_call_to(d_.value, "get_greville_points") and len(d_.value.args) == 2]
+                if ds:
+                    deg = n.key(ds[-1].value.args[1])
+                    src = deg
+        is_signal_branch = src is not None and src.endswith(".degree")
+        own = src is not None and (is_signal_branch or ("['d']" in src and "['i']" in src and "-" in src.replace("+ -", "-")))
+        ctx.check(ok and own, "grid_gist (line-role %s) reports coefficients at the Greville points of the member's own degree" % ("signals" if is_signal_branch else "chains"),
+                  detail="coefficients of a lower chain member paired with the Greville points of the head's degree (one time too many; wrong abscissae)",
+                  expected="G = get_greville_points(self.xi, origin['d'] - origin['i'])", found="Greville degree: %s" % src, fi=f, node=r, sample={"degree": src})
